@@ -204,6 +204,13 @@ func vAcceptDesc(ids []uint32, scores []float32, ref map[uint32]float64, k int) 
 
 func (s *vC03Sys) observe(h []string) {
 	mkey := s.Key()
+	canonBefore := vCanonBM25(s.idx)
+	defer func() {
+		s.c.Evaluations++
+		if after := vCanonBM25(s.idx); after != canonBefore {
+			s.c.Violation("search-modified-index", "", s.cfgS, h, fmt.Sprintf("index state before the queries [%s] after [%s]", canonBefore, after))
+		}
+	}()
 	// private statistics == those of the not-yet-flushed corpus
 	s.c.Evaluations++
 	total := 0
